@@ -625,7 +625,7 @@ def P(t):
 
 
 DEFAULTS = {'bool': 'false', 'Z': '0', 'u64': '0'}
-COQTYPE = {'bool': 'bool', 'Z': 'Z', 'u64': 'Z', 'ptr': 'bool'}
+COQTYPE = {'bool': 'bool', 'Z': 'Z', 'u64': 'Z', 'ptr': 'bool', 'Q': 'Q'}
 PLACEHOLDER = '\x00K%d\x00'
 SIZE_CAP = 20000
 
@@ -650,6 +650,7 @@ class Tr:
         # calls that READ AND WRITE state variables (explicit state passing):  key -> dict(term='f {$a} {$b} {0}', updates=['$a','$b'],
         # ret=type|None, args=[types]).  key = full call text for value calls ('GetAcknowledgement()'), callee for statements.
         self.calls_st = dict(t.get('calls_st', {}))
+        self.real = bool(t.get('real'))               # True: C++ double = exact rational arithmetic in Q (no rounding: an assumption, noted)
         self.strtypes = t.get('strings')              # dict(string='bytes', char='byte', lit='%d%%N'): byte strings as lists, + is concatenation
         self.dict_shape = t.get('dict_shape')         # ('seg', ['begin', 'end']): new Dictionary({{"begin", x}, {"end", y}}) is the value (x, y) of type seg
         self.assigns = dict(t.get('assigns', {}))     # key of an lvalue (e.g. '[new MessageOrigin]->FromZone') -> state variable
@@ -691,6 +692,7 @@ class Tr:
         if want == 'Z' and ty == 'u64': return term
         if want == 'u64' and ty == 'Z': return 'xl_u64 %s' % P(term)
         if want in ('Z', 'u64') and ty == 'bool': return 'if %s then 1 else 0' % term
+        if want == 'Q' and ty == 'Z': return 'inject_Z %s' % P(term)
         raise Unsupported('no conversion from %s to %s (%s)' % (ty, want, term))
 
     # ---- expressions
@@ -711,7 +713,11 @@ class Tr:
                 v = int(t, 0)
             except ValueError:
                 f = float(t)
-                if f != int(f): raise Unsupported('non-integral literal ' + e[1])
+                if f != int(f):
+                    if not self.real: raise Unsupported('non-integral literal ' + e[1])
+                    from fractions import Fraction
+                    fr = Fraction(t)
+                    return ('(Qmake %d %d%%positive)' % (fr.numerator, fr.denominator), 'Q')
                 v = int(f)
             return (str(v), 'Z')
         if kind == 'bool':
@@ -801,6 +807,14 @@ class Tr:
             a = self.coerce(self.tx(ea, env), 'bool'); b = self.coerce(self.tx(eb, env), 'bool')
             return ('%s %s %s' % (P(a), op, P(b)), 'bool')
         a, b = self.tx(ea, env), self.tx(eb, env)
+        if 'Q' in (a[1], b[1]) and a[1] in ('Q', 'Z') and b[1] in ('Q', 'Z'):
+            x, y = P(self.coerce(a, 'Q')), P(self.coerce(b, 'Q'))
+            if op in ('+', '-', '*', '/'):
+                return ('%s %s %s' % ({'+': 'Qplus', '-': 'Qminus', '*': 'Qmult', '/': 'Qdiv'}[op], x, y), 'Q')
+            cmpq = {'<=': 'Qle_bool %s %s' % (x, y), '>=': 'Qle_bool %s %s' % (y, x), '<': 'negb (Qle_bool %s %s)' % (y, x),
+                    '>': 'negb (Qle_bool %s %s)' % (x, y), '==': 'Qeq_bool %s %s' % (x, y), '!=': 'negb (Qeq_bool %s %s)' % (x, y)}
+            if op in cmpq: return (cmpq[op], 'bool')
+            raise Unsupported('operator %s on rationals' % op)
         num = lambda t: t in ('Z', 'u64')
         if op in ('<', '<=', '>', '>='):
             if not (num(a[1]) and num(b[1])): raise Unsupported('comparison of %s and %s' % (a[1], b[1]))
@@ -846,6 +860,7 @@ class Tr:
         if ty in self.ctypes: return self.ctypes[ty]
         if ty == 'bool': return 'bool'
         if ty in ('unsigned long', 'size_t', 'unsigned long long', 'uint64_t'): return 'u64'
+        if self.real and ty in ('double', 'float'): return 'Q'
         if ty in ('int', 'long', 'short', 'long long', 'double', 'float', 'unsigned int', 'unsigned') + SMALLINT or ty in self.cast_ok: return 'Z'
         return None
 
@@ -1140,6 +1155,16 @@ class Tr:
         e = unparen(s[1])
         if self.is_abort(s, env):
             if self.abort_val is None: raise Unsupported('path ends in ' + key(e, env)[:30] + ' and the target names no abort value')
+            if isinstance(self.abort_val, dict):          # {regex over the statement text: value}: which abort is it?
+                txt = key(e, env)
+                hits = [v for r, v in self.abort_val.items() if re.search(r, txt)]
+                if len(hits) != 1: raise Unsupported('abort statement %s matches %d of the declared abort values' % (txt[:40], len(hits)))
+                self.notes.append('a path ending in %s yields %s' % (txt[:60], hits[0]))
+                saved, self.abort_val = self.abort_val, hits[0]
+                try:
+                    return ctx.abort(env)
+                finally:
+                    self.abort_val = saved
             self.notes.append('a path ending in %s yields %s' % (key(e, env)[:30], self.abort_val))
             return ctx.abort(env)
         sk = key(e, env)
@@ -1369,7 +1394,7 @@ def translate(target, src):
                 g, t = target['params'][p]
                 if t in ('bool', 'Z', 'u64') or t in tr.types: env.vals[p] = (g, t, tr.declid())
                 else: env.alias[p] = g
-            else:
+            elif p not in env.alias:         # (a region may name a parameter in `aliases`)
                 env.alias[p] = None          # unbound parameter: any use as a value is an error
         for pseudo, g, t in state:
             env.vals[pseudo] = (g, t, tr.declid())
